@@ -10,6 +10,7 @@ import (
 	"encoding/binary"
 	"encoding/json"
 	"fmt"
+	units "github.com/docker/go-units"
 	"net"
 	"net/http"
 	"strconv"
@@ -327,7 +328,8 @@ func (c *Conn) Resize(name string, size string) error {
 		f.ResizeFail = false
 		return fmt.Errorf("scripted resize failure")
 	}
-	n, err := strconv.ParseInt(size, 10, 64)
+	// as replica.Server.Resize reads it
+	n, err := units.RAMInBytes(size)
 	if err != nil {
 		return err
 	}
